@@ -90,6 +90,57 @@ def gen_program(rng):
     return "\n".join(lines) + "\n", "\n".join(exp) + "\n"
 
 
+NAMES = ["easting", "northing", "payload", "ledger", "quantity", "waypoint", "tally", "x1", "longerFieldNameThanTwelve", "kind_", "z"]
+
+
+def gen_module_case(rng, d):
+    """A program in three files.  A class (fields, methods) is defined at the top level of one imported module, its
+    members are used BY NAME from a second module that is imported (compiled, its name constants interned) only after
+    a burst of garbage, and the main script never spells the names: between the two imports the strings naming the
+    members are held by the class tables alone (the chunk that defined the class is garbage once its import has
+    finished).  Equal contents must still denote the same member.  Returns (main path, combined text, expected)."""
+    os.makedirs(d, exist_ok=True)
+    nf = rng.randint(1, 4)
+    names = rng.sample(NAMES, nf + 2)
+    fields, meth, smeth = names[:nf], names[nf], names[nf + 1]
+    cls = "Shape%d" % rng.randrange(100)
+    vals = [rng.randint(1, 50) for _ in fields]
+    a = ["class %s {" % cls,
+         "  init(%s) {" % ", ".join("a%d" % i for i in range(nf))]
+    a += ["    self.%s = a%d;" % (f, i) for i, f in enumerate(fields)]
+    a += ["  }",
+          "  %s() { return %s; }" % (meth, " + ".join("self.%s" % f for f in fields)),
+          "  static %s() { return %d; }" % (smeth, 7),
+          "}",
+          "export let make = |%s| %s(%s);" % (", ".join("b%d" % i for i in range(nf)), cls, ", ".join("b%d" % i for i in range(nf))),
+          "export let klass = %s;" % cls]
+    use = ["export fn show(p) {",
+           "  return \"" + ",".join("${p.%s}" % f for f in fields) + ",${p.%s()}\";" % meth,
+           "}",
+           "export fn bump(p) {",
+           "  p.%s = p.%s + 1;" % (fields[0], fields[0]),
+           "  return p.%s;" % fields[0],
+           "}",
+           "export fn viaClass(k) { return k.%s(); }" % smeth]
+    churn = 'for g in %d.times() { let t = "g${g}" + "%s"; }' % (rng.randint(1, 40), rng.choice(WORDS))
+    main = ["import self.shapes: {make, klass};",
+            "let p = make(%s);" % ", ".join(str(v) for v in vals),
+            churn,
+            "import self.report: {show, bump, viaClass};",
+            "print(show(p));",
+            "print(bump(p));",
+            churn,
+            "print(show(p));",
+            "print(viaClass(klass));"]
+    exp = [",".join(str(v) for v in vals) + "," + str(sum(vals)), str(vals[0] + 1),
+           ",".join(str(v) for v in [vals[0] + 1] + vals[1:]) + "," + str(sum(vals) + 1), "7"]
+    files = {"shapes.lay": "\n".join(a) + "\n", "report.lay": "\n".join(use) + "\n", "main.lay": "\n".join(main) + "\n"}
+    for fn, txt in files.items():
+        open(os.path.join(d, fn), "w").write(txt)
+    combined = "".join("// ---- file %s\n%s" % (fn, files[fn]) for fn in ("main.lay", "shapes.lay", "report.lay"))
+    return os.path.join(d, "main.lay"), combined, "\n".join(exp) + "\n"
+
+
 def run(ctx):
     proved = ctx.prove("LaytheVerif.Props.C09")
     ok_c, out_c = common.cargo_build()
@@ -105,21 +156,39 @@ def run(ctx):
                        "non-trivial = program with at least two equal-content strings from different producers")
     if not proved:
         what, detail = ctx.broken
+        # search for a concrete input: allocator histories first, then the program streams with a larger budget
         ok = alloc_stream.run_stream(ctx, ctx.n(600, 4000), 150, "C09")
+        if ok:
+            ok = program_streams(ctx, ctx.n(1000, 20000), ctx.n(600, 6000), "search")
         if ok:
             ctx.violation("proof", {"kind": "proof-obligation-failed", "broken": what, "detail": detail}, no_input=True)
         return
     if not alloc_stream.run_stream(ctx, ctx.n(150, 3000), ctx.n(120, 300), "C09"):
         return
-    rng = random.Random(ctx.seed * 31337 + 9)
-    d = os.path.join(common.VERIF, "work", "c09_%s" % ctx.tier)
+    if not program_streams(ctx, ctx.n(250, 10000), ctx.n(120, 3000), ctx.tier):
+        return
+    ctx.assumptions += [
+        "every string allocation goes through Allocator::manage_str (single entry point) — an assumption of the model; on the code side it is observed, not proved: after a forced full collection of every generated program the number of string objects the allocator owns must equal the size of the intern table",
+        "the allocator model is hand-written; agreement is checked on the alloc stream",
+    ]
+
+
+def program_streams(ctx, nprog, nmod, tag):
+    """single-file string programs and three-file member-name programs under several collection schedules;
+    True iff nothing was found"""
+    import shutil
+    rng = random.Random(ctx.seed * 31337 + 9 + (1 if tag == "search" else 0))
+    d = os.path.join(common.VERIF, "work", "c09_%s" % tag)
+    shutil.rmtree(d, ignore_errors=True)
     os.makedirs(d, exist_ok=True)
     progs = []
-    for k in range(ctx.n(250, 10000)):
+    for k in range(nprog):
         src, exp = gen_program(rng)
         f = os.path.join(d, "s%d.lay" % k)
         open(f, "w").write(src)
         progs.append((f, src, exp))
+    for k in range(nmod):
+        progs.append(gen_module_case(rng, os.path.join(d, "m%d" % k)))
     modes = ["", "--gc every:1", "--gc every:2 --full 1", "--gc coin:1/5:%d --full 0" % ctx.seed]
     if not ctx.quick():
         modes += ["--gc every:3", "--gc every:7 --full 1", "--gc never"]
@@ -137,21 +206,19 @@ def run(ctx):
                                                "what": "after a full collection the allocator owns %d string objects but the intern table has %d entries: "
                                                        "a string was created outside the table (or an entry dangles)" % (st["string_objects"], st["intern_len"]),
                                                "mode": mode or "default", "program": src, "expected": exp, "status": r["status"], "stats_after_full": st})
-                return
+                return False
             if r["status"] != "Ok:0" or r["stdout"] != exp:
                 ctx.cov["impl_vs_spec_failures"] += 1
                 ctx.violation("strings", {"kind": "implementation-vs-spec",
                                           "what": "equal-content strings did not behave as one value (or the run failed)",
                                           "mode": mode or "default", "program": src, "expected": exp, "status": r["status"],
                                           "stdout": r["stdout"], "stderr": r["stderr"][-600:]})
-                return
-        ctx.stream_stat("strings", programs=len(progs), runs=len(progs))
+                return False
+        ctx.stream_stat("strings", programs=nprog, module_cases=nmod, runs=len(progs))
     ctx.cov["traces_validated_against_impl"] += len(progs) * len(modes)
     ctx.sample({"program": progs[0][1], "expected": progs[0][2]})
-    ctx.assumptions += [
-        "every string allocation goes through Allocator::manage_str (single entry point) — an assumption of the model; on the code side it is observed, not proved: after a forced full collection of every generated program the number of string objects the allocator owns must equal the size of the intern table",
-        "the allocator model is hand-written; agreement is checked on the alloc stream",
-    ]
+    ctx.sample({"program": progs[-1][1], "expected": progs[-1][2]})
+    return True
 
 
 def replay(path):
@@ -161,6 +228,16 @@ def replay(path):
         tmp = os.path.join(common.VERIF, "work", "c09_replay.lay")
         os.makedirs(os.path.dirname(tmp), exist_ok=True)
         open(tmp, "w").write(r["program"])
+        if r["program"].startswith("// ---- file "):
+            # a three-file case: re-create the directory
+            import shutil
+            dd = os.path.join(common.VERIF, "work", "c09_replay_dir")
+            shutil.rmtree(dd, ignore_errors=True)
+            os.makedirs(dd)
+            for part in r["program"].split("// ---- file ")[1:]:
+                fn, txt = part.split("\n", 1)
+                open(os.path.join(dd, fn.strip()), "w").write(txt)
+            tmp = os.path.join(dd, "main.lay")
         mode = r.get("mode", "")
         a = common.run_batch(["%s --stats --steps 300000 %s" % ("" if mode == "default" else mode, tmp)])[0]
         st = a.get("stats_after_full") or {}
